@@ -3,7 +3,6 @@ package main
 import (
 	"fmt"
 	"go/token"
-	"strings"
 
 	"golang.org/x/tools/go/ssa"
 )
@@ -11,10 +10,113 @@ import (
 func init() {
 	register(&propDef{
 		id: "C48", run: runC48, minOblig: 12,
-		explanation: "Decides the acceptance gates of ocsp.ParseResponseForCert under the path assumption issuer != nil (the nil-tests on the issuer parameter are evaluated as non-nil): every path to a non-nil *Response (i) crosses the success edge of Response.CheckSignatureFrom — the response signature is always verified, with the issuer or the embedded certificate — and (ii) crosses the success edge of a signature check made WITH THE ISSUER: CheckSignatureFrom(issuer) or issuer.CheckSignature over the embedded certificate's RawTBSCertificate/Signature; CheckSignatureFrom verifies resp.TBSResponseData, which is assigned from the received TBSResponseData.Raw bytes (no re-serialisation); both asn1.Unmarshal results are rejected when trailing bytes remain; Responses[0] and Certificates[0] are read only behind a positive count (evaluated); a critical single extension or an unknown issuer hash rejects; with a certificate given, a response is selected only on serial-number equality; ParseRequest reads RequestList[0] only behind the count test and rejects trailing data and signed requests. NOT decided: CreateResponse/Parse value round-trip; panics inside encoding/asn1.",
+		explanation: "Decides the acceptance gates of ocsp.ParseResponseForCert with a value- and context-sensitive gate analysis (c48_gate.go: helpers of the package are analysed in the context of each call, a helper parameter is the argument passed, a helper all of whose nil-error / true returns lie behind a check establishes that check for its caller; flags, switches and early returns are the same to it). Under the path assumption issuer != nil (nil tests of the issuer argument, in any helper, evaluated as non-nil) every return of a non-nil *Response (i) lies behind the success of an x509 Certificate.CheckSignature over the response's own TBSResponseData/Signature made with the issuer or with the embedded certificate (the certificate parsed by x509.ParseCertificate and kept in Response.Certificate) — Response.CheckSignatureFrom is such a check and is itself decided to verify exactly resp.TBSResponseData/resp.Signature with the certificate given — and (ii) lies behind the success of a signature check made WITH THE ISSUER: on the response directly, or issuer.CheckSignature over the embedded certificate's RawTBSCertificate/Signature (every other use of the issuer as verifier is a violation); Response.TBSResponseData is only ever assigned the received TBSResponseData.Raw bytes (no re-serialisation); after every asn1.Unmarshal (wherever it is called) no non-nil response is returned unless len(rest) == 0 was established for that call's rest; Responses[k] and Certificates[k] (constant k) are read only where the list length exceeds k (evaluated with the length bound to 0..k, in the function that reads or — for a helper that receives the list — at the call site of each context), and a computed position that is not a loop variable is never read from an empty list; once a single extension's Critical flag was observed true no non-nil response is returned (loop, helper or slices.ContainsFunc alike); an issuer hash that is 0 (unknown algorithm) rejects; with a certificate given (cert != nil assumed) every returned response lies behind serial-number equality (big.Int.Cmp with cert.SerialNumber == 0, also as a flag, a helper result or a slices.IndexFunc/ContainsFunc predicate); ParseRequest reads RequestList[k] only behind the count test, rejects trailing data after its Unmarshal and rejects requests whose OptionalSignature is non-empty. NOT decided: CreateResponse/Parse value round-trip; panics inside encoding/asn1.",
 		assumptions: []string{"crypto/x509 Certificate.CheckSignature contract"},
 	})
-	tech("C48", "must-cross CFG rules with a single-boolean path assumption (edge pruning by finite-domain evaluation), raw-bytes provenance, count-guard evaluation")
+	tech("C48", "value- and context-sensitive interprocedural gate analysis (helpers expanded per call site, results summarised by their returns), single-boolean path assumptions, from-observation reachability, raw-bytes provenance, count-guard evaluation")
+}
+
+const c48X509Check = "(*crypto/x509.Certificate).CheckSignature"
+
+// c48SigCheck: v is X.CheckSignature(alg, S.<tbsField>, S.Signature) with both
+// byte arguments fields of the same object S of struct type typ.
+func c48SigCheck(g *c48Gate, v ssa.Value, fr *c48Frame, typ, tbsField string) (signer, subject ssa.Value, subjFr *c48Frame, ok bool) {
+	call, isCall := v.(*ssa.Call)
+	if !isCall || calleeName(&call.Call) != c48X509Check || len(call.Call.Args) != 4 {
+		return nil, nil, nil, false
+	}
+	a := call.Call.Args
+	s2, f2 := g.resolve(a[2], fr)
+	s3, f3 := g.resolve(a[3], fr)
+	t1, fld1, b1, ok1 := fieldOf(stripConv(s2))
+	t2, fld2, b2, ok2 := fieldOf(stripConv(s3))
+	if !ok1 || !ok2 || t1 != typ || t2 != typ || fld1 != tbsField || fld2 != "Signature" {
+		return nil, nil, nil, false
+	}
+	if !g.same(b1, f2, b2, f3) {
+		return nil, nil, nil, false
+	}
+	return a[0], b1, f2, true
+}
+
+// c48Embedded: v is the certificate embedded in the response — the result of
+// x509.ParseCertificate, directly or read back from Response.Certificate,
+// which is only ever assigned such a result.
+func c48Embedded(g *c48Gate, v ssa.Value, fr *c48Frame, depth int) bool {
+	if depth > 4 {
+		return false
+	}
+	rv, rf := g.resolve(v, fr)
+	switch x := rv.(type) {
+	case *ssa.Extract:
+		call, ok := x.Tuple.(*ssa.Call)
+		if !ok {
+			return false
+		}
+		if x.Index == 0 && calleeName(&call.Call) == "crypto/x509.ParseCertificate" {
+			return true
+		}
+		return c48EmbeddedResult(g, call, x.Index, rf, depth)
+	case *ssa.Call:
+		return x.Call.Signature().Results().Len() == 1 && c48EmbeddedResult(g, x, 0, rf, depth)
+	case *ssa.Phi:
+		some := false
+		for _, e := range x.Edges {
+			if isNilConst(e) {
+				continue
+			}
+			if !c48Embedded(g, e, rf, depth+1) {
+				return false
+			}
+			some = true
+		}
+		return some
+	case *ssa.UnOp:
+		if x.Op != token.MUL {
+			return false
+		}
+		typ, fld, _, ok := fieldOf(x)
+		if !ok || typ != "Response" || fld != "Certificate" {
+			return false
+		}
+		n := 0
+		for _, h := range g.allFrames() {
+			for _, st := range storesTo(h.fn, "Response", "Certificate") {
+				if isNilConst(st.Val) {
+					continue
+				}
+				if !c48Embedded(g, st.Val, h, depth+1) {
+					return false
+				}
+				n++
+			}
+		}
+		return n > 0
+	}
+	return false
+}
+
+// c48EmbeddedResult: result idx of a call to a helper of the package is the
+// embedded certificate (or nil) on every return of the helper.
+func c48EmbeddedResult(g *c48Gate, call *ssa.Call, idx int, fr *c48Frame, depth int) bool {
+	s := g.sub(fr, call)
+	if s == nil {
+		return false
+	}
+	some := false
+	for _, r := range returnsOf(s.fn) {
+		if idx >= len(r.Results) {
+			return false
+		}
+		if isNilConst(r.Results[idx]) {
+			continue
+		}
+		if !c48Embedded(g, r.Results[idx], s, depth+1) {
+			return false
+		}
+		some = true
+	}
+	return some
 }
 
 func runC48(c *Ctx) {
@@ -23,281 +125,403 @@ func runC48(c *Ctx) {
 	if f == nil {
 		return
 	}
-	issuer := f.Params[2]
-	certP := f.Params[1]
-	acc := valueReturns(f, 0)
-	// path assumption issuer != nil
-	e := newEnv()
-	e.bindNilTests(f, func(v ssa.Value) bool { return v == ssa.Value(issuer) }, false)
-	base := e.cuts(f)
-	csf := callsNamed(f, "(*ocsp.Response).CheckSignatureFrom")
-	var withIssuer, all []edge
-	for _, ci := range csf {
-		y, _ := errSuccessEdges(ci.(*ssa.Call))
-		all = append(all, y...)
-		if ci.Common().Args[1] == ssa.Value(issuer) {
-			withIssuer = append(withIssuer, y...)
+	if len(f.Params) != 3 {
+		c.fail("anchor", "ocsp.ParseResponseForCert", f, "signature changed: (bytes, cert, issuer) expected")
+		return
+	}
+	const certIdx, issuerIdx = 1, 2
+
+	// ---- signature gates, under the path assumption issuer != nil
+	var gs, gi *c48Gate
+	issuerAssumed := func(g *c48Gate) {
+		g.assumeNonNil = func(v ssa.Value, fr *c48Frame) bool {
+			return fr == g.root && v == ssa.Value(f.Params[issuerIdx])
 		}
 	}
-	var embedded []ssa.CallInstruction
-	for _, ci := range callsNamed(f, "(*crypto/x509.Certificate).CheckSignature") {
-		if ci.Common().Args[0] == ssa.Value(issuer) {
-			embedded = append(embedded, ci)
-			y, _ := errSuccessEdges(ci.(*ssa.Call))
-			withIssuer = append(withIssuer, y...)
+	gs = c.c48NewGate(f, func(v ssa.Value, fr *c48Frame) (c48St, bool) {
+		signer, _, _, ok := c48SigCheck(gs, v, fr, "Response", "TBSResponseData")
+		if ok && (gs.isRootParam(signer, fr, issuerIdx) || c48Embedded(gs, signer, fr, 0)) {
+			return c48Nil, true
+		}
+		return 0, false
+	})
+	issuerAssumed(gs)
+	gs.decide("C48.signature", "response signature verified", 0, c48NonNil,
+		"a successful CheckSignature over the response's TBSResponseData and Signature (Response.CheckSignatureFrom) with the issuer or the embedded certificate",
+		"every returned response passed a signature check over its TBSResponseData, made with the issuer or the embedded certificate",
+		"with a non-nil issuer a response can be returned without passing Response.CheckSignatureFrom(...) == nil (signature over TBSResponseData by the issuer or the embedded certificate)")
+
+	gi = c.c48NewGate(f, func(v ssa.Value, fr *c48Frame) (c48St, bool) {
+		if signer, _, _, ok := c48SigCheck(gi, v, fr, "Response", "TBSResponseData"); ok && gi.isRootParam(signer, fr, issuerIdx) {
+			return c48Nil, true
+		}
+		if signer, subj, sf, ok := c48SigCheck(gi, v, fr, "Certificate", "RawTBSCertificate"); ok && gi.isRootParam(signer, fr, issuerIdx) && c48Embedded(gi, subj, sf, 0) {
+			return c48Nil, true
+		}
+		return 0, false
+	})
+	issuerAssumed(gi)
+	gi.decide("C48.issuer", "issuer vouches for the signer", 0, c48NonNil,
+		"a signature check made with the issuer (directly on the response, or on the embedded certificate)",
+		"every returned response passed a signature check made with the issuer (on the response, or on the embedded certificate that signed it)",
+		"with a non-nil issuer a response can be returned without passing a signature check made with the issuer (directly on the response, or on the embedded certificate)")
+
+	// every use of the issuer as a verifier is one of the two legitimate forms
+	{
+		nEmb, bad := 0, ssa.Instruction(nil)
+		for _, fr := range gi.allFrames() {
+			allInstrs(fr.fn, func(in ssa.Instruction) {
+				call, ok := in.(*ssa.Call)
+				if !ok || calleeName(&call.Call) != c48X509Check || !gi.isRootParam(call.Call.Args[0], fr, issuerIdx) {
+					return
+				}
+				if _, _, _, isResp := c48SigCheck(gi, call, fr, "Response", "TBSResponseData"); isResp {
+					return
+				}
+				if _, subj, sf, isCert := c48SigCheck(gi, call, fr, "Certificate", "RawTBSCertificate"); isCert && c48Embedded(gi, subj, sf, 0) {
+					nEmb++
+					return
+				}
+				bad = in
+			})
+		}
+		switch {
+		case bad != nil:
+			c.fail("C48.issuer", "issuer.CheckSignature(embedded certificate)", bad, "the issuer's check is not over the embedded certificate's RawTBSCertificate and Signature")
+		case nEmb == 0:
+			c.fail("C48.issuer", "issuer.CheckSignature(embedded certificate)", f, "the issuer's check is not over the embedded certificate's RawTBSCertificate and Signature (no issuer.CheckSignature over the embedded certificate found in "+fnName(f)+" or its helpers)")
+		default:
+			c.ok("C48.issuer", "issuer.CheckSignature(embedded certificate)", f, "the issuer verifies the embedded certificate's TBS bytes and signature")
 		}
 	}
-	cross := func(rule, name string, pass []edge, what string) {
-		if len(pass) == 0 {
-			c.fail(rule, name, f, "gate not found: "+what)
-			return
-		}
-		cut := edgeSet{}
-		for k := range base {
-			cut[k] = true
-		}
-		cut.addAll(pass)
-		r := reach([]*ssa.BasicBlock{f.Blocks[0]}, cut)
-		for _, t := range acc {
-			if r[t.Block()] {
-				c.fail(rule, name, t, "with a non-nil issuer a response can be returned without passing "+what)
-				return
+
+	// the exported CheckSignatureFrom verifies the response's own bytes with the certificate given
+	if h := c.fn("ocsp", "(*Response).CheckSignatureFrom"); h != nil && len(h.Params) == 2 {
+		var gc *c48Gate
+		gc = c.c48NewGate(h, func(v ssa.Value, fr *c48Frame) (c48St, bool) {
+			signer, subj, sf, ok := c48SigCheck(gc, v, fr, "Response", "TBSResponseData")
+			if ok && gc.isRootParam(signer, fr, 1) && gc.isRootParam(subj, sf, 0) {
+				return c48Nil, true
+			}
+			return 0, false
+		})
+		gc.decide("C48.signature", "CheckSignatureFrom", 0, c48Nil,
+			"issuer.CheckSignature(alg, resp.TBSResponseData, resp.Signature)",
+			"nil is returned only after issuer.CheckSignature(alg, resp.TBSResponseData, resp.Signature) succeeded",
+			"CheckSignatureFrom does not verify the response's TBSResponseData and Signature with the given certificate")
+	}
+
+	// ---- raw provenance of TBSResponseData
+	{
+		n, okRaw := 0, true
+		for _, fr := range gs.allFrames() {
+			for _, st := range storesTo(fr.fn, "Response", "TBSResponseData") {
+				n++
+				rv, _ := gs.resolve(st.Val, fr)
+				if _, fld, _, ok := fieldOf(stripConv(rv)); !ok || fld != "Raw" {
+					okRaw = false
+				}
 			}
 		}
-		c.ok(rule, name, f, "every returned response passed "+what)
+		c.check(okRaw && n > 0, "C48.signed-bytes", "Response.TBSResponseData", f, "the bytes verified are the received TBSResponseData.Raw", "the signed bytes are not the raw received TBSResponseData")
 	}
-	cross("C48.signature", "response signature verified", all, "Response.CheckSignatureFrom(...) == nil")
-	cross("C48.issuer", "issuer vouches for the signer", withIssuer, "a signature check made with the issuer (directly on the response, or on the embedded certificate)")
-	// embedded certificate check arguments
-	okEmb := len(embedded) == 1
-	if okEmb {
-		a := embedded[0].Common().Args
-		_, f1, _, ok1 := fieldOf(a[2])
-		_, f2, _, ok2 := fieldOf(a[3])
-		okEmb = ok1 && ok2 && f1 == "RawTBSCertificate" && f2 == "Signature"
+
+	c48Trailing(c, f, 2, "trailing data rejected")
+	for _, fld := range []string{"Responses", "Certificates"} {
+		c48CountGuard(c, f, fld, fld+"[0]")
 	}
-	c.check(okEmb, "C48.issuer", "issuer.CheckSignature(embedded certificate)", f, "the issuer verifies the embedded certificate's TBS bytes and signature", "the issuer's check is not over the embedded certificate's RawTBSCertificate and Signature")
-	// the embedded cert used for CheckSignatureFrom is the parsed first certificate
-	if g := c.fn("ocsp", "(*Response).CheckSignatureFrom"); g != nil {
-		ok := false
-		for _, ci := range callsNamed(g, "(*crypto/x509.Certificate).CheckSignature") {
-			a := ci.Common().Args
-			_, f1, _, ok1 := fieldOf(a[2])
-			_, f2, _, ok2 := fieldOf(a[3])
-			if a[0] == ssa.Value(g.Params[1]) && ok1 && ok2 && f1 == "TBSResponseData" && f2 == "Signature" {
-				ok = true
-			}
-		}
-		c.check(ok, "C48.signature", "CheckSignatureFrom", g, "issuer.CheckSignature(alg, resp.TBSResponseData, resp.Signature)", "CheckSignatureFrom does not verify the response's TBSResponseData and Signature with the given certificate")
-	}
-	// raw provenance of TBSResponseData
-	okRaw := false
-	for _, st := range storesTo(f, "Response", "TBSResponseData") {
-		if _, fld, _, ok := fieldOf(stripConv(st.Val)); ok && fld == "Raw" {
-			okRaw = true
-		}
-	}
-	c.check(okRaw, "C48.signed-bytes", "Response.TBSResponseData", f, "the bytes verified are the received TBSResponseData.Raw", "the signed bytes are not the raw received TBSResponseData")
-	// trailing data after both Unmarshals
-	um := callsNamed(f, "encoding/asn1.Unmarshal")
-	nTrail := 0
-	for _, ci := range um {
-		call := ci.(*ssa.Call)
-		for _, rv := range resultN(call, 0) {
-			var pass []edge
-			allInstrs(f, func(in ssa.Instruction) {
-				if lc, ok := in.(*ssa.Call); ok && calleeName(&lc.Call) == "builtin:len" && lc.Call.Args[0] == rv {
-					pass = append(pass, edgesImplying(lc, []int64{0, 1, 5}, func(d int64) bool { return d == 0 })...)
+
+	// ---- critical extensions: once Critical was observed true, no response is returned
+	{
+		probe := c.c48NewGate(f, func(ssa.Value, *c48Frame) (c48St, bool) { return 0, false })
+		var occ []c48Occ
+		for _, fr := range probe.allFrames() {
+			allInstrs(fr.fn, func(in ssa.Instruction) {
+				v, ok := in.(ssa.Value)
+				if !ok {
+					return
+				}
+				if u, isU := v.(*ssa.UnOp); isU && u.Op != token.MUL {
+					return
+				}
+				if typ, fld, _, okf := fieldOf(v); okf && typ == "Extension" && fld == "Critical" {
+					if _, isAddr := v.(*ssa.FieldAddr); !isAddr {
+						occ = append(occ, c48Occ{fr, in})
+					}
 				}
 			})
-			if len(pass) > 0 {
-				cut := edgeSet{}
-				cut.addAll(pass)
-				okT := true
-				for _, t := range acc {
-					if pathBetween(call, t, cut) {
-						okT = false
-					}
+		}
+		okCrit := len(occ) > 0
+		var at poser = f
+		for _, o := range occ {
+			o := o
+			g := c.c48NewGate(f, func(v ssa.Value, fr *c48Frame) (c48St, bool) {
+				if fr.key == o.fr.key && v == o.in.(ssa.Value) {
+					return c48False, true
 				}
-				if okT {
-					nTrail++
+				return 0, false
+			})
+			g.startAt(o.fr, o.in)
+			if ok, r := g.returnsHold(g.root, 0, c48NonNil); !ok {
+				okCrit = false
+				at = r
+			}
+		}
+		c.check(okCrit, "C48.critical-ext", "critical single extensions", at, "a critical extension rejects the response", "a response with a critical single extension can be accepted")
+	}
+
+	// ---- serial match, under the path assumption cert != nil
+	{
+		var g *c48Gate
+		isCertSerial := func(v ssa.Value, fr *c48Frame) bool {
+			rv, rf := g.resolve(v, fr)
+			typ, fld, base, ok := fieldOf(stripConv(rv))
+			return ok && typ == "Certificate" && fld == "SerialNumber" && g.isRootParam(base, rf, certIdx)
+		}
+		g = c.c48NewGate(f, func(v ssa.Value, fr *c48Frame) (c48St, bool) {
+			return c48CmpGate(v, func(x ssa.Value) bool {
+				call, ok := x.(*ssa.Call)
+				if !ok || calleeName(&call.Call) != "(*math/big.Int).Cmp" || len(call.Call.Args) != 2 {
+					return false
 				}
+				return isCertSerial(call.Call.Args[0], fr) || isCertSerial(call.Call.Args[1], fr)
+			}, []int64{-1, 0, 1}, func(d int64) bool { return d == 0 })
+		})
+		g.assumeNonNil = func(v ssa.Value, fr *c48Frame) bool {
+			return fr == g.root && v == ssa.Value(f.Params[certIdx])
+		}
+		g.decide("C48.serial", "response selected by serial number", 0, c48NonNil,
+			"cert.SerialNumber.Cmp(response serial) == 0",
+			"with a certificate given, only a response for its serial number is returned",
+			"a response for a different serial number can be returned for the given certificate")
+	}
+
+	// ---- issuer hash known
+	{
+		probe := c.c48NewGate(f, func(ssa.Value, *c48Frame) (c48St, bool) { return 0, false })
+		stored := map[ssa.Value]bool{}
+		for _, fr := range probe.allFrames() {
+			for _, st := range storesTo(fr.fn, "Response", "IssuerHash") {
+				stored[stripConv(st.Val)] = true
+			}
+		}
+		g := c.c48NewGate(f, func(v ssa.Value, fr *c48Frame) (c48St, bool) {
+			return c48CmpGate(v, func(x ssa.Value) bool {
+				if typ, fld, _, ok := fieldOf(x); ok && typ == "Response" && fld == "IssuerHash" {
+					return true
+				}
+				_, isConst := x.(*ssa.Const)
+				return !isConst && stored[stripConv(x)]
+			}, []int64{0, 1, 5}, func(d int64) bool { return d != 0 })
+		})
+		g.decide("C48.issuer-hash", "unknown issuer hash rejected", 0, c48NonNil,
+			"Response.IssuerHash != 0",
+			"a response whose CertID hash algorithm is unknown is rejected",
+			"an unknown issuer hash algorithm is accepted")
+	}
+
+	// ---- ParseRequest
+	if pr := c.fn("ocsp", "ParseRequest"); pr != nil {
+		c48CountGuard(c, pr, "RequestList", "ParseRequest RequestList[0]")
+		c48Trailing(c, pr, 1, "ParseRequest")
+		g := c.c48NewGate(pr, func(v ssa.Value, fr *c48Frame) (c48St, bool) {
+			return c48CmpGate(v, func(x ssa.Value) bool {
+				call, ok := x.(*ssa.Call)
+				if !ok || calleeName(&call.Call) != "builtin:len" {
+					return false
+				}
+				_, fld, base, okf := fieldOf(call.Call.Args[0])
+				if !okf || fld != "FullBytes" {
+					return false
+				}
+				_, bf, _, okb := fieldOf(base)
+				return okb && bf == "OptionalSignature"
+			}, []int64{0, 1, 5}, func(d int64) bool { return d == 0 })
+		})
+		g.decide("C48.trailing", "ParseRequest signed requests", 0, c48NonNil,
+			"len(OptionalSignature.FullBytes) == 0",
+			"signed requests are rejected",
+			"a request carrying a signature (non-empty OptionalSignature) can be accepted")
+	}
+}
+
+// c48Trailing: after every asn1.Unmarshal call (in root or a helper, in the
+// context of each call chain) no non-nil result #0 of root is returned unless
+// len(rest) == 0 was established for that call's rest.
+func c48Trailing(c *Ctx, root *ssa.Function, minCalls int, name string) {
+	probe := c.c48NewGate(root, func(ssa.Value, *c48Frame) (c48St, bool) { return 0, false })
+	var occ []c48Occ
+	for _, fr := range probe.allFrames() {
+		for _, ci := range callsNamed(fr.fn, "encoding/asn1.Unmarshal") {
+			if call, ok := ci.(*ssa.Call); ok {
+				occ = append(occ, c48Occ{fr, call})
 			}
 		}
 	}
-	c.check(nTrail == len(um) && nTrail >= 2, "C48.trailing", "trailing data rejected", f, fmt.Sprintf("all %d DER decodes reject leftover bytes", nTrail), fmt.Sprintf("only %d of the %d DER decodes reject trailing bytes", nTrail, len(um)))
-	// counts
-	for _, fld := range []string{"Responses", "Certificates"} {
-		var lens []ssa.Value
-		var idx0 []ssa.Instruction
-		allInstrs(f, func(in ssa.Instruction) {
-			if call, ok := in.(*ssa.Call); ok && calleeName(&call.Call) == "builtin:len" {
-				if _, fl, _, okf := fieldOf(call.Call.Args[0]); okf && fl == fld {
-					lens = append(lens, call)
+	nTrail := 0
+	var at poser = root
+	for _, o := range occ {
+		o := o
+		call := o.in.(*ssa.Call)
+		rests := map[ssa.Value]bool{}
+		for _, rv := range resultN(call, 0) {
+			rests[rv] = true
+		}
+		g := c.c48NewGate(root, func(v ssa.Value, fr *c48Frame) (c48St, bool) {
+			if fr.key != o.fr.key {
+				return 0, false
+			}
+			return c48CmpGate(v, func(x ssa.Value) bool {
+				lc, ok := x.(*ssa.Call)
+				return ok && calleeName(&lc.Call) == "builtin:len" && rests[lc.Call.Args[0]]
+			}, []int64{0, 1, 5}, func(d int64) bool { return d == 0 })
+		})
+		g.startAt(o.fr, call)
+		if g.countGates() == 0 {
+			at = call
+			continue
+		}
+		if ok, _ := g.returnsHold(g.root, 0, c48NonNil); ok {
+			nTrail++
+		} else {
+			at = call
+		}
+	}
+	c.check(nTrail == len(occ) && nTrail >= minCalls, "C48.trailing", name, at,
+		fmt.Sprintf("all %d DER decodes reject leftover bytes", nTrail),
+		fmt.Sprintf("only %d of the %d DER decodes reject trailing bytes (the one shown, or one missing, lets a result through without len(rest) == 0)", nTrail, len(occ)))
+}
+
+// c48LoopCarried: v is (computed from) a phi that feeds itself — the position
+// variable of a loop.
+func c48LoopCarried(v ssa.Value) bool {
+	var reaches func(x ssa.Value, target *ssa.Phi, seen map[ssa.Value]bool) bool
+	reaches = func(x ssa.Value, target *ssa.Phi, seen map[ssa.Value]bool) bool {
+		if x == ssa.Value(target) {
+			return true
+		}
+		if seen[x] {
+			return false
+		}
+		seen[x] = true
+		switch y := x.(type) {
+		case *ssa.Phi:
+			for _, e := range y.Edges {
+				if reaches(e, target, seen) {
+					return true
 				}
 			}
-			if ia, ok := in.(*ssa.IndexAddr); ok {
-				if _, fl, _, okf := fieldOf(ia.X); okf && fl == fld {
-					if k, okk := constInt(ia.Index); okk && k == 0 {
-						idx0 = append(idx0, ia)
-					}
+		case *ssa.BinOp:
+			return reaches(y.X, target, seen) || reaches(y.Y, target, seen)
+		case *ssa.Convert:
+			return reaches(y.X, target, seen)
+		case *ssa.ChangeType:
+			return reaches(y.X, target, seen)
+		}
+		return false
+	}
+	var phis func(x ssa.Value, seen map[ssa.Value]bool) bool
+	phis = func(x ssa.Value, seen map[ssa.Value]bool) bool {
+		if seen[x] {
+			return false
+		}
+		seen[x] = true
+		switch y := x.(type) {
+		case *ssa.Phi:
+			for _, e := range y.Edges {
+				if reaches(e, y, map[ssa.Value]bool{}) {
+					return true
 				}
+			}
+			for _, e := range y.Edges {
+				if phis(e, seen) {
+					return true
+				}
+			}
+		case *ssa.BinOp:
+			return phis(y.X, seen) || phis(y.Y, seen)
+		case *ssa.Convert:
+			return phis(y.X, seen)
+		case *ssa.ChangeType:
+			return phis(y.X, seen)
+		}
+		return false
+	}
+	return phis(v, map[ssa.Value]bool{})
+}
+
+// c48CountGuard: every read of element k (constant) of the list held in field
+// fld happens only where the list is longer than k: with the list's length
+// bound to 0..k the read is unreachable, in its own function or — for a helper
+// that receives the list — at the call site of the frame.
+func c48CountGuard(c *Ctx, root *ssa.Function, fld, name string) {
+	g := c.c48NewGate(root, func(ssa.Value, *c48Frame) (c48St, bool) { return 0, false })
+	isList := func(v ssa.Value, fr *c48Frame) bool {
+		rv, _ := g.resolve(v, fr)
+		_, fl, _, ok := fieldOf(stripConv(rv))
+		return ok && fl == fld
+	}
+	var guarded func(fr *c48Frame, b *ssa.BasicBlock, k int64) bool
+	guarded = func(fr *c48Frame, b *ssa.BasicBlock, k int64) bool {
+		var lens []ssa.Value
+		allInstrs(fr.fn, func(in ssa.Instruction) {
+			if call, ok := in.(*ssa.Call); ok && calleeName(&call.Call) == "builtin:len" && isList(call.Call.Args[0], fr) {
+				lens = append(lens, call)
 			}
 		})
-		ok := len(lens) > 0 && len(idx0) > 0
-		if ok {
-			e0 := newEnv()
-			for _, l := range lens {
-				e0.bind(l, 0)
-			}
-			e0.solve(f)
-			for _, i := range idx0 {
-				if e0.reach[i.Block()] {
-					ok = false
+		if len(lens) > 0 {
+			dead := true
+			for n := int64(0); n <= k; n++ {
+				e := newEnv()
+				for _, l := range lens {
+					e.bind(l, n)
+				}
+				e.solve(fr.fn)
+				if e.reach[b] {
+					dead = false
 				}
 			}
-		}
-		c.check(ok, "C48.count-guard", fld+"[0]", f, "element 0 is read only when the list is non-empty", fld+"[0] can be read from an empty list")
-	}
-	// critical extensions
-	var crit []ssa.Value
-	crit = loadsOfPathSuffix(f, "Critical")
-	okCrit := len(crit) > 0
-	for _, v := range crit {
-		ec := newEnv()
-		ec.bind(v, 1)
-		cut := ec.cuts(f)
-		r := reachAfter(v.(ssa.Instruction), cut)
-		for _, t := range acc {
-			if r[t.Block()] {
-				okCrit = false
+			if dead {
+				return true
 			}
 		}
-	}
-	c.check(okCrit, "C48.critical-ext", "critical single extensions", f, "a critical extension rejects the response", "a response with a critical single extension can be accepted")
-	// serial match
-	var serial []edge
-	for _, ci := range callsNamed(f, "(*math/big.Int).Cmp") {
-		_, fr, br, okr := fieldOf(ci.Common().Args[0])
-		if okr && fr == "SerialNumber" && br == ssa.Value(certP) {
-			serial = append(serial, edgesImplying(callValue(ci), []int64{-1, 0, 1}, func(d int64) bool { return d == 0 })...)
+		if fr.parent != nil && fr.call != nil {
+			return guarded(fr.parent, fr.call.Block(), k)
 		}
+		return false
 	}
-	{
-		ec := newEnv()
-		ec.bindNilTests(f, func(v ssa.Value) bool { return v == ssa.Value(certP) }, false)
-		cut := ec.cuts(f)
-		// the loop records the hit in a flag: the flag's true edges count as
-		// the serial match when its only true source lies behind Cmp == 0
-		serialCut := edgeSet{}
-		serialCut.addAll(serial)
-		allInstrs(f, func(in ssa.Instruction) {
-			ph, ok := in.(*ssa.Phi)
-			if !ok || ph.Type().String() != "bool" {
+	nIdx, ok := 0, true
+	var at poser = root
+	for _, fr := range g.allFrames() {
+		allInstrs(fr.fn, func(in ssa.Instruction) {
+			var x, idx ssa.Value
+			switch ia := in.(type) {
+			case *ssa.IndexAddr:
+				x, idx = ia.X, ia.Index
+			case *ssa.Index:
+				x, idx = ia.X, ia.Index
+			default:
 				return
 			}
-			okFlag := false
-			for _, l := range phiLeaves(ph) {
-				if b, isC := constBool(l.val); isC && b && l.pred != nil {
-					okFlag = !reach([]*ssa.BasicBlock{f.Blocks[0]}, serialCut)[l.pred]
-				} else if !isC {
-					okFlag = false
-					break
-				}
+			if !isList(x, fr) {
+				return
 			}
-			if okFlag {
-				y, _ := boolEdges(ph, true)
-				serial = append(serial, y...)
+			k, isK := constInt(idx)
+			if !isK {
+				// a computed position (`list[which]`, which = 0 or a search
+				// result): it must at least not be read from an empty list;
+				// the positions of a loop over the list are bounded by the loop
+				if c48LoopCarried(idx) {
+					return
+				}
+				k = 0
+			}
+			nIdx++
+			if !guarded(fr, in.Block(), k) {
+				ok = false
+				at = in
 			}
 		})
-		cut.addAll(serial)
-		okS := len(serial) > 0
-		r := reach([]*ssa.BasicBlock{f.Blocks[0]}, cut)
-		for _, t := range acc {
-			if r[t.Block()] {
-				okS = false
-			}
-		}
-		c.check(okS, "C48.serial", "response selected by serial number", f, "with a certificate given, only a response for its serial number is returned", "a response for a different serial number can be returned for the given certificate")
 	}
-	// issuer hash known
-	okHash := false
-	allInstrs(f, func(in ssa.Instruction) {
-		if bo, ok := in.(*ssa.BinOp); ok && (bo.Op == token.EQL || bo.Op == token.NEQ) {
-			if _, fld, _, okf := fieldOf(bo.X); okf && fld == "IssuerHash" {
-				if k, okk := constInt(bo.Y); okk && k == 0 {
-					eh := newEnv()
-					if bo.Op == token.EQL {
-						eh.bind(bo, 1)
-					} else {
-						eh.bind(bo, 0)
-					}
-					cut := eh.cuts(f)
-					r := reachAfter(bo, cut)
-					okHash = true
-					for _, t := range acc {
-						if r[t.Block()] {
-							okHash = false
-						}
-					}
-				}
-			}
-		}
-	})
-	c.check(okHash, "C48.issuer-hash", "unknown issuer hash rejected", f, "a response whose CertID hash algorithm is unknown is rejected", "an unknown issuer hash algorithm is accepted")
-	// ---- ParseRequest
-	if g := c.fn("ocsp", "ParseRequest"); g != nil {
-		var lens []ssa.Value
-		var idx0 []ssa.Instruction
-		allInstrs(g, func(in ssa.Instruction) {
-			if call, ok := in.(*ssa.Call); ok && calleeName(&call.Call) == "builtin:len" {
-				if _, fl, _, okf := fieldOf(call.Call.Args[0]); okf && fl == "RequestList" {
-					lens = append(lens, call)
-				}
-			}
-			if ia, ok := in.(*ssa.IndexAddr); ok {
-				if _, fl, _, okf := fieldOf(ia.X); okf && fl == "RequestList" {
-					idx0 = append(idx0, ia)
-				}
-			}
-		})
-		ok := len(lens) > 0 && len(idx0) > 0
-		if ok {
-			e0 := newEnv()
-			for _, l := range lens {
-				e0.bind(l, 0)
-			}
-			e0.solve(g)
-			for _, i := range idx0 {
-				if e0.reach[i.Block()] {
-					ok = false
-				}
-			}
-		}
-		c.check(ok, "C48.count-guard", "ParseRequest RequestList[0]", g, "read only when the list is non-empty", "RequestList[0] can be read from an empty list")
-		// trailing + signed requests
-		nRej := 0
-		allInstrs(g, func(in ssa.Instruction) {
-			if call, ok := in.(*ssa.Call); ok && calleeName(&call.Call) == "builtin:len" {
-				p := accessPath(call.Call.Args[0])
-				_, isEx := call.Call.Args[0].(*ssa.Extract)
-				if isEx || strings.HasSuffix(p, "FullBytes") {
-					e1 := newEnv()
-					e1.bind(call, 3)
-					cut := e1.cuts(g)
-					r := reachAfter(call, cut)
-					okk := true
-					for _, t := range valueReturns(g, 0) {
-						if r[t.Block()] {
-							okk = false
-						}
-					}
-					if okk {
-						nRej++
-					}
-				}
-			}
-		})
-		c.check(nRej >= 2, "C48.trailing", "ParseRequest", g, "trailing data and signed requests are rejected", fmt.Sprintf("only %d of (trailing data, signed request) are rejected", nRej))
-	}
+	c.check(ok && nIdx > 0, "C48.count-guard", name, at, "a fixed element is read only when the list is long enough", name+" can be read from an empty list")
 }
